@@ -600,14 +600,35 @@ def prov_node_attributes(repo, tier="quick"):
                 len(n.ast.value.elts) == 1 and isinstance(n.ast.value.elts[0], ast.Tuple) and len(n.ast.value.elts[0].elts) == 3:
             attr_e = n.ast.value.elts[0].elts[1]
             t = fl.canon(attr_e, n.id)
+            # the anchor is the node the branch hangs on, which is not always the node read in the previous iteration (a second
+            # branch on the same anchor): its attributes are the ones stored on the graph under the anchor's key
             ok = False
-            if isinstance(attr_e, ast.Name):
+            key_t = fl.canon(n.ast.targets[0].slice, n.id)
+            src = t
+            c_ = is_call(src, "dict")
+            if c_ and len(c_[0]) == 1 and not c_[1]:
+                src = c_[0][0]
+            m_ = method_call(src, "copy")
+            if m_ and not m_[2]:
+                src = m_[0]
+            if src[0] == "sub" and src[1][0] == "attr" and src[1][2] == "nodes":
+                anchors = {key_t}
+                # recipes[branch_anchor[-1]] with branch_anchor.append(prev_node) in front: prev_node is the same key
+                for call_, nid_ in fl.calls():
+                    mm = method_call(fl.canon(call_, nid_), "append")
+                    if mm and len(mm[2]) == 1 and key_t == ("sub", mm[0], ("const", -1)) and cfg.dominates(nid_, n.id):
+                        anchors.add(mm[2][0])
+                ok = src[2] in anchors
+            stale = False
+            if not ok and isinstance(attr_e, ast.Name):
                 ds = [d for d in fl.reaching(attr_e.id, n.id) if d.kind != "unbound"]
-                ok = bool(ds) and all(d.kind == "assign" and not d.path and fl.canon(d.value, d.node) == P for d in ds)
-            (obs.append(ob_ok(oid, fi, n.ast, construct="anchor recipe entry carries the anchor node's parsed attributes", instance="recipe-anchor",
-                              reason="copies of the anchor made by a branch multiplier keep its annotations")) if ok else
+                stale = bool(ds) and all(d.kind == "assign" and not d.path and fl.canon(d.value, d.node) == P for d in ds)
+            (obs.append(ob_ok(oid, fi, n.ast, construct="anchor recipe entry carries the attributes stored on the anchor node", instance="recipe-anchor",
+                              reason="copies of the anchor made by a branch multiplier keep its name and annotations")) if ok else
              obs.append(ob_fail(oid, fi, n.ast, construct="anchor recipe entry attributes = %s" % show(t), instance="recipe-anchor",
-                                reason="the anchor's recipe entry does not carry the attributes parsed from the anchor node's own text")))
+                                reason=("the anchor's recipe entry takes the attributes of the node that was read last, which is the anchor only for the "
+                                        "first branch on it: {[#A;q=1]([#B])([#C])|2} repeats a node named B with charge 0" if stale else
+                                        "the anchor's recipe entry does not carry the attributes of the anchor node"))))
     # _expand_branch forwards recipe attributes
     eb = repo.function("read_cgsmiles:_expand_branch")
     efl = eb.flow
